@@ -197,4 +197,39 @@ Proof.
   subst m. exists (no b), b. repeat split; auto.
 Qed.
 
+(** findAncestor returns a block of the main chain that was listed, the first such in list order;
+    it fails only if no listed hash names a main-chain block. *)
+Theorem find_ancestor_sound n hs b :
+  Inv n -> find_ancestor (dur n) hs = Some b ->
+  In (hash_field b) hs /\ no b <= no (best n) /\ mainb (dur n) (no b) = Some b.
+Proof.
+  intros I H. unfold find_ancestor in H. destruct (find (on_main (dur n)) hs) as [h|] eqn:Ef; [|discriminate].
+  apply find_some in Ef. destruct Ef as (Hin & Hon). unfold on_main in Hon. rewrite H in Hon.
+  destruct (get_block_univ _ _ _ _ _ _ _ I H) as (_ & Hh & _). subst h.
+  destruct (get_hash_by_no (dur n) (no b)) as [h'|] eqn:Eh; [|discriminate]. apply N.eqb_eq in Hon. subst h'.
+  split; [exact Hin|].
+  assert (Hle : no b <= no (best n)).
+  { destruct (N.le_gt_cases (no b) (no (best n))) as [Hle|Hgt]; auto.
+    unfold get_hash_by_no in Eh. rewrite (i_above _ _ _ _ _ I _ Hgt) in Eh. discriminate. }
+  split; [exact Hle|]. unfold mainb, get_block_by_no. rewrite Eh. exact H.
+Qed.
+
+Theorem find_ancestor_complete n hs k b :
+  Inv n -> k <= no (best n) -> mainb (dur n) k = Some b -> In (hash_field b) hs ->
+  exists a, find_ancestor (dur n) hs = Some a.
+Proof.
+  intros I Hk Hb Hin.
+  assert (Hg : get_block (dur n) (hash_field b) = Some b).
+  { unfold mainb, get_block_by_no in Hb. destruct (get_hash_by_no (dur n) k); [|discriminate].
+    destruct (get_block_univ _ _ _ _ _ _ _ I Hb) as (_ & <- & _). exact Hb. }
+  assert (Hon : on_main (dur n) (hash_field b) = true).
+  { unfold on_main. rewrite Hg. rewrite (i_no _ _ _ _ _ I _ _ Hk Hb).
+    unfold mainb, get_block_by_no in Hb. destruct (get_hash_by_no (dur n) k) as [h|] eqn:Eh; [|discriminate].
+    destruct (get_block_univ _ _ _ _ _ _ _ I Hb) as (_ & Hh & _). subst h. apply N.eqb_refl. }
+  unfold find_ancestor. destruct (find (on_main (dur n)) hs) as [h|] eqn:Ef.
+  - apply find_some in Ef. destruct Ef as (_ & Hon'). unfold on_main in Hon'.
+    destruct (get_block (dur n) h) as [a|]; [eauto|discriminate].
+  - exfalso. pose proof (find_none _ _ Ef _ Hin) as E. simpl in E. rewrite Hon in E. discriminate.
+Qed.
+
 End AddBlock.
